@@ -1358,6 +1358,26 @@ def gen_analysable(rng):
     return {"types": [], "init": init, "guard": ("true",), "body": body, "shape": shape}
 
 
+def fixed_analysable():
+    """hand-written analysable programs: an elif chain WITHOUT else whose conditions test DIFFERENT variables against
+    different constants (both can hold at once, so the chain is not a set of independent ifs)"""
+    F = Fraction
+    one = ("const", F(1))
+    det = lambda e: ("choice", [(one, e)])
+    half = lambda a, b: ("choice", [(("const", F(1, 2)), ("const", F(a))), (("const", F(1, 2)), ("const", F(b)))])
+    out = []
+    for c2 in (0, 2):
+        body = [("assign", "f", half(0, 1)), ("assign", "g", ("choice", [(("const", F(1, 3)), ("const", F(0))), (("const", F(1, 3)), ("const", F(1))),
+                                                                         (("const", F(1, 3)), ("const", F(2)))])),
+                ("if", [(("atom", ("var", "f"), "==", ("const", F(1))), [("assign", "a", det(("add", ("var", "a"), ("const", F(1)))))]),
+                        (("atom", ("var", "g"), "==", ("const", F(c2))), [("assign", "a", det(("add", ("var", "a"), ("const", F(2))))),
+                                                                        ("assign", "b", det(("add", ("var", "b"), ("var", "f"))))])], None)]
+        init = [("assign", "f", det(("const", F(0)))), ("assign", "g", det(("const", F(0)))), ("assign", "a", det(("const", F(0)))),
+                ("assign", "b", det(("const", F(1))))]
+        out.append({"types": [], "init": init, "guard": ("true",), "body": body, "shape": "elif-no-else-different-variables"})
+    return out
+
+
 # ---- spellings of one program ---------------------------------------------------------------
 SPELLING_KINDS = ["baseline", "tight", "wide", "comments", "blank", "crlf", "parens-full", "parens-random", "parens-min",
                   "decimal", "implicit-last", "temporaries", "nested-else-if", "mixed"]
